@@ -27,13 +27,24 @@ EXPLANATION = (
     "CommonShare created later is registered and marked at creation unless the count is still a guess; the marker "
     "always sets the flag and leaves a tree with the authoritative number of leaves; (9) response order of read "
     "answers: in every _satisfy_* stage the edge on which a fetched span is absent reaches no consumer of that data "
-    "and returns a false value, and no consumer sits inside the fetch loop (a partial hash chain is never submitted).  "
-    "Undecided: the arithmetic identities themselves (sum of block sizes == share size), zfec, AES, hash trees, and "
-    "all other effects of server response orders (scheduling of Share/SegmentFetcher/ShareFinder loops, overdue "
+    "and returns a false value, and no consumer sits inside the fetch loop (a partial hash chain is never submitted); "
+    "(10) satisfaction rounds (Share._get_satisfaction, run after every read answer): the unsatisfied edge of every "
+    "_satisfy_* stage ends the round with a false value before any later stage runs, a round reports progress only after "
+    "the head of the request queue was retired (BADSEGNUM round and delivered block alike), and a stage reports "
+    "'unsatisfied' only on a path on which one of its fetched pieces was absent; (11) when the UEB is parsed the five results "
+    "of _calculate_sizes are stored under their own names on every path and every table sized with the guessed segment "
+    "count (ciphertext hash tree and its leaf count) is rebuilt with the authoritative one; in (6) also: under allow_short "
+    "the padding is reachable without an exact-length precondition and a short tail cannot reach the return unpadded.  "
+    "Undecided: the arithmetic identities themselves (sum of block sizes == share size), zfec, AES, hash trees; that the "
+    "spans a stage fetches are the spans _desire_* requested (a mismatch stalls every download); the value-level guards "
+    "(2**32 / 2**64 layout-version limits, the segnum >= num_segments BADSEGNUM boundary - SegmentFetcher re-checks it -, "
+    "length assertions in put_* / _decode_blocks); corruption handling in the _satisfy_* except branches (honest servers "
+    "never reach it); the verifier-only consistency checks of ValidatedExtendedURIProxy; range clipping and Segmentation "
+    "(C04); and all other effects of server response orders (scheduling of Share/SegmentFetcher/ShareFinder loops, overdue "
     "handling, DataSpans semantics).")
 TECHNIQUE = ("static analysis: symbolic normal forms of size formulas compared under a symbol map, struct-format "
-             "folding of the share header, CFG gate rules for pad/trim, typestate exploration of CommonShare creation "
-             "and of absent-data edges in the downloader")
+             "folding of the share header, CFG gate rules for pad/trim, typestate exploration of CommonShare creation, "
+             "of absent-data edges and of the satisfaction round (stage results, request retirement) in the downloader")
 
 ENC = "immutable.encode:Encoder"
 NODE = "immutable.downloader.node:DownloadNode"
@@ -1050,6 +1061,62 @@ def run_padtrim(ctx, r):
     for (n, w) in find_path_avoiding(got.cfg(), pads, gate_edge=pad_gate):
         r.violation(got, got.loc(n.ast), "a short read of a non-tail segment is silently zero-padded: neither allow_short "
                     "nor an exact-length precondition holds (path: %s)" % w.brief(), w)
+    # ... and for the tail (allow_short) the padding is reachable without an exact-length precondition
+    def exact_len(n, lab):
+        f = fng.edge_fact(n, lab)
+        return bool(f) and f[0] == "==" and n.assume and any(re.match(r"^len\(.*\)$", x or "") for x in f[1:]) \
+            and any(re.match(r"^\w+$", x or "") for x in f[1:])
+
+    def pad_reach(n, lab, nxt, st):
+        if lab == "exc" or nxt.kind == "raise":
+            return None
+        short, exact = st
+        f = fng.edge_fact(n, lab)
+        if f and f[0] in ("truth", "false") and f[1] == "allow_short":
+            v = f[0] == "truth"
+            if short is not None and short != v:
+                return None
+            short = v
+        return (short, exact or exact_len(n, lab))
+    vis_p, _par = explore(got.cfg(), (None, False), pad_reach)
+    r.count(len(vis_p))
+    r.require(any(got.cfg().nodes[i] is pn[0] and st[0] is not False and not st[1] for (i, st) in vis_p), got, got.loc(pn[0].ast),
+              "with allow_short (the tail segment) the padding is only reached after a precondition that the data already has "
+              "the full length: a tail whose size is not a multiple of k fails the precondition instead of being padded")
+    # ... and a short tail never leaves unpadded: every path to the return on which allow_short may hold passes the
+    # padding or an edge on which the data is known to have the full length
+    def full_len(n, lab):
+        f = fng.edge_fact(n, lab)
+        if not f or f[0] not in ("==", "<="):
+            return False
+        l_, r_ = f[1] or "", f[2] or ""
+        if f[0] == "==":
+            return (bool(re.match(r"^len\(.*\)$", l_)) and bool(re.match(r"^\w+$", r_))) or \
+                   (bool(re.match(r"^len\(.*\)$", r_)) and bool(re.match(r"^\w+$", l_)))
+        return bool(re.match(r"^\w+$", l_)) and bool(re.match(r"^len\(.*\)$", r_))      # read_size <= len(data)
+
+    def unpadded(n, lab, nxt, st):
+        if lab == "exc" or nxt.kind == "raise" or n is pn[0]:
+            return None
+        f = fng.edge_fact(n, lab)
+        if f and f[0] in ("truth", "false") and f[1] == "allow_short":
+            v = "T" if f[0] == "truth" else "F"
+            if st != "?" and st != v:
+                return None
+            st = v
+        if full_len(n, lab):
+            return None
+        return st
+    vis_u, par_u = explore(got.cfg(), "?", unpadded)
+    r.count(len(vis_u))
+    for (i, st) in sorted(vis_u):
+        q = got.cfg().nodes[i]
+        if is_return(q) and st != "F":
+            w = witness(got.cfg(), par_u, (i, st))
+            r.violation(got, got.loc(pn[0].ast), "a short tail read (allow_short) can reach the return without being padded to "
+                        "num_chunks * input_chunk_size bytes: the last chunk is short and the tail codec refuses it (path: %s)"
+                        % w.brief(), w)
+            break
     a = pn[0].ast
     ok = isinstance(a, ast.AugAssign) and isinstance(a.op, ast.Add) and isinstance(a.target, ast.Name)
     if ok:
@@ -1710,11 +1777,32 @@ def _flag_step(n, lab, st, plain):
     return frozenset(d.items())
 
 
-def _return_truth(q, flags):
+def _returned_ast(cfg, rd, q):
+    """The expression a return node hands back, followed through copies into plain locals with one reaching definition."""
+    v, node = q.ast.value, q
+    for _hop in range(4):
+        if not isinstance(v, ast.Name):
+            break
+        ds = rd.get(node.id, {}).get(v.id, frozenset())
+        if len(ds) != 1 or C.PARAM_DEF in ds:
+            break
+        dn = cfg.nodes[next(iter(ds))]
+        if not (dn.kind == "stmt" and isinstance(dn.ast, ast.Assign) and len(dn.ast.targets) == 1
+                and isinstance(dn.ast.targets[0], ast.Name)):
+            break
+        v, node = dn.ast.value, dn
+    return v
+
+
+def _return_truth(q, flags, cfg=None, rd=None):
     """True / False when the return node q certainly returns a true / false value, None when unknown."""
     v = q.ast.value
     if v is None:
         return False
+    if isinstance(v, ast.Name) and v.id in flags:
+        return flags[v.id]
+    if cfg is not None:
+        v = _returned_ast(cfg, rd, q)
     if isinstance(v, ast.Constant):
         return bool(v.value)
     if isinstance(v, ast.Name) and v.id in flags:
@@ -1858,12 +1946,16 @@ def run_satisfaction_loop(ctx, r):
         return n.kind == "stmt" and isinstance(n.ast, (ast.Assign, ast.AugAssign)) and queue in node_stores(n)
 
     # ---- (A) the unsatisfied edge of every stage leaves the round before any other stage runs
+    def flagged(a_, l_, nx, st_):
+        return None if l_ == "exc" else _flag_step(a_, l_, st_, plain)
+    rets = cfg.find(is_return)
     tested, returned = [], []
     for n in cfg.nodes:
         for c in stage_calls(n):
             m = by_name[call_name(c).split(".")[1]]
-            if n.kind == "stmt" and isinstance(n.ast, ast.Return) and n.ast.value is c:
-                returned.append((n, c, m))
+            rq = [q for q in rets if _returned_ast(cfg, rd, q) is c]
+            if rq:
+                returned.extend((q, c, m) for q in rq)
                 r.site(gs, c, "%s: last stage, its result is the result of the round" % m.name)
                 continue
             r.site(gs, c, "%s: unsatisfied -> the round ends before any later stage" % m.name)
@@ -1881,9 +1973,9 @@ def run_satisfaction_loop(ctx, r):
             tested.append(m)
             told = set()
             for (t, lab, first) in unsat:
-                vis, par = explore(cfg, 0, noexc, start=first)
+                vis, par = explore(cfg, frozenset(), flagged, start=first)
                 r.count(len(vis))
-                for (nid, st) in sorted(vis):
+                for (nid, st) in sorted(vis, key=lambda x: (x[0], sorted(x[1]))):
                     q = cfg.nodes[nid]
                     later = stage_calls(q)
                     if later and "s" not in told:
@@ -1893,7 +1985,7 @@ def run_satisfaction_loop(ctx, r):
                                     "in any order): the later stage works on hashes / offsets that are not there, raises, and "
                                     "the good share is reported corrupt and abandoned (path from the unsatisfied edge at %s: %s)" % (
                                         src(gs, later[0]), m.name, gs.loc(t.ast), w.brief()), w)
-                    elif is_return(q) and _return_truth(q, {}) is not False and not stage_calls(q) and "r" not in told:
+                    elif is_return(q) and not later and _return_truth(q, dict(st), cfg, rd) is not False and "r" not in told:
                         told.add("r")
                         w = witness(cfg, par, (nid, st))
                         r.violation(gs, gs.loc(q.ast), "the round reports progress (%s) although %s found its data absent: "
@@ -1904,6 +1996,8 @@ def run_satisfaction_loop(ctx, r):
 
     # ---- (B) a round returns a true value only after the head request was retired
     def check_retire(fn, fcfg, what):
+        frd = FlowNorm(fn).rd
+
         def transfer(n, lab, nxt, st):
             if lab == "exc":
                 return None
@@ -1916,13 +2010,13 @@ def run_satisfaction_loop(ctx, r):
         r.count(len(vis))
         told = set()
         for q in fcfg.find(is_return):
-            if _return_truth(q, {}) is not False and not any(q is n_ for (n_, _c, _m) in returned):
+            if _return_truth(q, {}, fcfg, frd) is True:
                 r.site(fn, q.ast, "%s only after %s is retired" % (src(fn, q.ast), queue))
         for (nid, st) in sorted(vis, key=lambda x: (x[0], x[1][0], sorted(x[1][1]))):
             q = fcfg.nodes[nid]
             if not is_return(q) or st[0] or nid in told or any(q is n_ for (n_, _c, _m) in returned):
                 continue
-            if _return_truth(q, dict(st[1])) is False:
+            if _return_truth(q, dict(st[1]), fcfg, frd) is False:
                 continue
             told.add(nid)
             w = witness(fcfg, par, (nid, st))
@@ -1963,7 +2057,7 @@ def run_satisfaction_loop(ctx, r):
         told = set()
         for (nid, st) in sorted(vis, key=lambda x: (x[0], x[1][0], sorted(x[1][1]))):
             q = mcfg.nodes[nid]
-            if is_return(q) and not st[0] and _return_truth(q, dict(st[1])) is False and nid not in told:
+            if is_return(q) and not st[0] and _return_truth(q, dict(st[1]), mcfg, mrd) is False and nid not in told:
                 told.add(nid)
                 w = witness(mcfg, par, (nid, st))
                 r.violation(m, m.loc(q.ast), "%s reports the stage as unsatisfied (%s) on a path on which every piece it fetched "
@@ -1984,6 +2078,78 @@ def run_satisfaction_loop(ctx, r):
                                 "every piece it fetched had arrived: the round ends and, when these were the last answers "
                                 "outstanding, the download stalls (path: %s)" % (short(m), w.brief()), w)
                     break
+
+def run_authoritative_tables(ctx, r):
+    """When the UEB is parsed every size the downloader guessed (or left None) is replaced by the authoritative one."""
+    idx = ctx.idx
+    p = idx.func(NODE + "._parse_and_store_UEB")
+    pcfg = p.cfg()
+    rd_fn = idx.func(NODE + "._calculate_sizes")
+    ps = Sym(idx, p)
+    ccall = the_call(p, "_calculate_sizes")
+    res_names = [t.id for n in pcfg.nodes if n.kind == "stmt" and isinstance(n.ast, ast.Assign) and n.ast.value is ccall
+                 for t in n.ast.targets if isinstance(t, ast.Name)]
+    stored = {}
+    for n in pcfg.nodes:
+        if n.kind == "stmt" and isinstance(n.ast, ast.Assign):
+            v = ps.expand(n, n.ast.value)
+            k = _const_key(v)
+            base = v.value if isinstance(v, ast.Subscript) else None
+            if k is not None and (base is ccall or (isinstance(base, ast.Call) and call_tail(base) == "_calculate_sizes")
+                                  or (isinstance(base, ast.Name) and base.id in res_names)):
+                for t in n.ast.targets:
+                    tp = attr_path(t)
+                    if tp and tp.startswith("self."):
+                        stored.setdefault(k, []).append((tp, n))
+    for key in ("tail_segment_size", "tail_segment_padded", "num_segments", "block_size", "tail_block_size"):
+        r.site(p, None, "self.%s <- _calculate_sizes()[%r]" % (key, key))
+        hits = [n for (tp, n) in stored.get(key, []) if tp == "self." + key]
+        if not hits:
+            r.violation(p, p.loc(ccall), "_parse_and_store_UEB does not store the %r entry of _calculate_sizes as self.%s: the "
+                        "downloader keeps the value it had before the UEB (None) for a size that block addressing / decoding "
+                        "/ trimming read" % (key, key))
+            continue
+        for (t, w) in find_path_avoiding(pcfg, lambda q: q.kind == "exit", gate_node=lambda q, _h=hits: any(q is h for h in _h),
+                                         skip_exc_edges=True):
+            r.violation(p, p.loc(hits[0].ast), "self.%s is not set on every path through _parse_and_store_UEB (path: %s)" % (
+                key, w.brief()), w)
+    # tables built from the guessed segment count are rebuilt from the authoritative one
+    g = idx.func(NODE + "._build_guessed_tables")
+    gsym = Sym(idx, g)
+    ren_g = {"self.guessed_num_segments": "NUMSEG", "self.guessed_segment_size": "SEG"}
+    ren_p = {"self.num_segments": "NUMSEG", "self.segment_size": "SEG"}
+    ns_nodes = [n for n in pcfg.nodes if n.kind == "stmt" and "self.num_segments" in node_stores(n)]
+    guessed = []
+    for n in g.cfg().nodes:
+        if n.kind == "stmt" and isinstance(n.ast, ast.Assign):
+            for path in sorted(node_stores(n)):
+                if path.startswith("self.") and not path.startswith("self.guessed_") and not path.endswith("[]"):
+                    gv = gsym.expand(n, n.ast.value)
+                    if {"NUMSEG", "SEG"} & names_in(parse_expr(nf(gv, ren_g))):
+                        guessed.append((path, n, gv))
+    if not guessed:
+        raise AnchorVanished("_build_guessed_tables no longer builds any table from the guessed segment count")
+    for (path, gn, gv) in guessed:
+        r.site(g, gn.ast, "%s is rebuilt from the authoritative count in _parse_and_store_UEB" % path)
+        want = nf(gv, ren_g)
+        hits = [n for n in pcfg.nodes if n.kind == "stmt" and isinstance(n.ast, ast.Assign) and path in node_stores(n)]
+        if not hits:
+            r.violation(p, p.loc(), "%s is built from the guessed segment count (%s) and never rebuilt when the UEB gives the "
+                        "real one: when the guess was wrong (segment size of the upload differs from this client's default) "
+                        "hashes of segments beyond the guess are never requested / do not fit, and the download stalls or "
+                        "fails" % (path, g.loc(gn.ast)))
+            continue
+        for h in hits:
+            got = nf(ps.expand(h, h.ast.value), ren_p)
+            r.require(got == want, p, p.loc(h.ast), "%s is rebuilt as %s; the guessed table is %s with the guessed count" % (
+                path, nf(ps.expand(h, h.ast.value)), nf(gv)))
+            r.require(bool(ns_nodes) and all(dominated_by(pcfg, x, h) for x in ns_nodes[:1]), p, p.loc(h.ast),
+                      "%s is rebuilt before self.num_segments holds the authoritative count" % path)
+        for (t, w) in find_path_avoiding(pcfg, lambda q: q.kind == "exit", gate_node=lambda q, _h=hits: any(q is h for h in _h),
+                                         skip_exc_edges=True):
+            r.violation(p, p.loc(hits[0].ast), "%s is not rebuilt on every path through _parse_and_store_UEB (path: %s)" % (
+                path, w.brief()), w)
+
 
 # ====================================================================== driver
 def run(ctx: Context):
@@ -2037,3 +2203,9 @@ def run(ctx: Context):
                   "after the head request was retired; a stage reports 'unsatisfied' only when a fetched piece was absent",
                   expected=8) as r:
         run_satisfaction_loop(ctx, r)
+
+    with ctx.rule("C01.11", "R5", "when the UEB is parsed every size the downloader left unset or guessed is replaced: the five "
+                  "results of _calculate_sizes are stored under their own names on every path, and every table that "
+                  "_build_guessed_tables sizes with the guessed segment count is rebuilt with the authoritative one",
+                  expected=7) as r:
+        run_authoritative_tables(ctx, r)
